@@ -423,7 +423,12 @@ def run_cfg(chk, facts, cfg):
                                     probs.append('an iteration does not consume exactly one element')
                                     continue
                                 if is_increment(sm, d, nx[0][2]):
-                                    src = None
+                                    # a closure-driven loop (for_each / try_for_each / fold) consumes the iterator
+                                    # value itself; a `for`/`while let` loop keeps it in a carried cell
+                                    itv = nx[0][1]
+                                    while itv[0] == 'op' and itv[1] == 'ref':   # try_for_each takes the iterator by &mut
+                                        itv = itv[2][0]
+                                    src = iters.get(itv)
                                     for cc, v in rec['cell_havoc'].items():
                                         if v == nx[0][1]:
                                             src = iters.get(rec['cell_init'].get(cc))
